@@ -67,10 +67,20 @@ def decide(spec, tier, seed):
     gen_ok = True
     if ok:
         gen_ok, gout = core.regenerate()
+        softs = re.findall(r"^extract-soft: (.*)$", gout, flags=re.M)
+        if softs:
+            notes.append("extract_soft_fail: some facts were no longer readable from the source in the recognised shape and "
+                         "were taken from the running code instead (weaker tie, no alarm): " + " | ".join(softs)[:3000])
         if not gen_ok:
-            notes.append("extract failed: " + gout[-1500:])
-            broken.append({"kind": "broken-obligation", "obligation": "regeneration of Starcal/Gen from /repo (cmd/extract)", "detail": gout[-1500:]})
-
+            # only the regenerated files this property's theorems depend on count for it
+            failed = set(re.findall(r"^extract: (\w+)\.lean:", gout, flags=re.M))
+            used = {m.split(".")[-1] for m in core.lean_sources([spec.lean_module]) if m.startswith("Starcal.Gen.")}
+            relevant = sorted(failed & used) if failed else sorted(used)
+            notes.append("extract reported: " + gout[-1500:])
+            if relevant:
+                broken.append({"kind": "broken-obligation",
+                               "obligation": "regeneration of Starcal/Gen/%s.lean from /repo (cmd/extract)" % ",".join(relevant),
+                               "detail": gout[-1500:]})
     # Lean: property theorems (+ regenerated obligations) and the driver
     lean_ok, lout, lake_s = core.lake_build([spec.lean_module, "driver"])
     if not lean_ok:
